@@ -172,7 +172,8 @@ def summarize(tier: str, seed: int, merged: dict) -> dict:
             "all valid parameter tuples per term over the position alphabet "
             f"{G.positions(tier, seed)} (ordered/unordered as the term requires, +-inf shoulders, both directions) x "
             f"heights {G.HEIGHTS} x [each break point, its floating-point neighbours, mid points, a lattice over the "
-            "support, +-1e6, +-inf, NaN]; float/0-d/1-D/2-D entry points; non-trivial = documented value strictly "
+            "support, +-1e6, +-inf, NaN]; float/0-d/1-D/2-D entry points, integer-typed x, float32 and float16 arrays; Discrete terms "
+            f"with repeated x-coordinates; far-from-origin parameter sets {G.FAR}; non-trivial = documented value strictly "
             "between 0 and the height"
         ),
         "exhaustive": True,
